@@ -183,15 +183,18 @@ func templateReplay(e *Engine, o *Obl, repo, dir string) (bool, string, bool) {
 	vc := o.vc
 	key := shortName(fnKey(vc.fn))
 	b, err := os.ReadFile(filepath.Join(verifDir, "replay", key+".tmpl"))
-	if err != nil || vc.act == nil {
+	if err != nil || (vc.act == nil && strings.Contains(string(b), "//@ get ")) {
 		return false, "", false
 	}
 	var tr strings.Builder
 	type getv struct{ name, term, sort, fact string }
 	var gets []getv
 	var body []string
-	env := vc.act.specEnv(vc.act.entry)
-	env.old = vc.act.entry
+	var env *SpecEnv
+	if vc.act != nil {
+		env = vc.act.specEnv(vc.act.entry)
+		env.old = vc.act.entry
+	}
 	for _, l := range strings.Split(string(b), "\n") {
 		t := strings.TrimSpace(l)
 		if strings.HasPrefix(t, "//@ get ") {
